@@ -33,6 +33,10 @@ def run(ctx):
     ctx.each(r01g, ctx, repo, T)
     ctx.each(r01h, ctx, repo, T)
     ctx.each(flowalg.share_rule, ctx, repo, "R01j")
+    # stock(t+1) = stock(t) + in - out exactly: the clamp in Compartment.update may only replace negative values
+    from .c02 import r02d
+
+    ctx.each(r02d, ctx, repo, T)
     ctx.each(flowalg.accumulator_rule, ctx, repo, "R01i")
     ctx.each(flowalg.link_registration_rule, ctx, repo, "R01k")
     ctx.each(flowalg.step_wiring_rule, ctx, repo, "R01l")
